@@ -33,7 +33,8 @@ def main():
                 print(f"{pid}-{n}: PATCH DOES NOT APPLY to HEAD: {o.strip()[:300]}"); continue
             rc_mut, o2 = sh(f"/venv/bin/python _seed/demo{n}.py", cwd=wt, env=env)
             rc_suite, o3 = sh(f"/verif/tools/run_baseline.sh {wt}")
-            rc_chk, o4 = sh(f"/verif/check {pid} --tier quick", cwd="/verif", env={"VERIF_REPO": wt, "VERIF_EVIDENCE_DIR": "/tmp/seedchk/ev"})
+            CHK = os.environ.get("VERIF_CHECK_DIR", "/verif")
+            rc_chk, o4 = sh(f"{CHK}/check {pid} --tier quick", cwd=CHK, env={"VERIF_REPO": wt, "VERIF_EVIDENCE_DIR": "/tmp/seedchk/ev"})
             detected = "VIOLATION" in o4
             ok = rc_clean == 0 and rc_mut != 0 and rc_suite == 0
             print(f"{pid}-{n}: demo clean rc={rc_clean} mutated rc={rc_mut} suite rc={rc_suite} ({o3.strip().splitlines()[0] if o3.strip() else ''}) check rc={rc_chk} detected={detected} -> {'KEEP' if ok else 'REJECT'}")
